@@ -55,6 +55,7 @@ FIXED = [
  ("C27","stale-configuration:ignore_vlans","CaptureConfig.Equals compares all","changing only ignore_vlans / extra_bpf_filters of an interface did not restart its capture: the source kept the old setting while Config() reported the new one"),
  ("C27","overlapping-regexps-by-map-order","overlapping interface regexps resolve","with matchers {/eth.*/, /.*0/:promisc} the configuration applied to eth0 depended on Go map iteration order (41 of 200 runs promisc)"),
  ("C27","selected-interface-not-captured:reconfigured","the error routine of a replaced capture","after Update(eth0 default -> eth0 promisc) returned, no capture ran on eth0: the old capture's logErrors routine looked the capture up by name and closed the newly registered one (300 of 300 runs at GOMAXPROCS=1)"),
+ ("C11","never-ends:work-queue-filled-before-workers-start","queries over more day directories","a query over 2049 day directories with one worker (runtime.NumCPU()==1) never returned: CreateWorkerJobs blocked on the 65th send into a channel of capacity workers*64 that nobody reads yet"),
 ]
 
 KNOWN = [
